@@ -4,6 +4,7 @@ mod rng;
 mod out;
 mod eng_small;
 mod eng_store;
+mod eng_fringe;
 
 pub struct Args {
     pub engine: String,
@@ -36,6 +37,7 @@ fn main() {
         "width" => eng_small::run_width(&a),
         "cache" => eng_store::run_cache(&a),
         "dom" => eng_store::run_dom(&a),
+        "fringe" => eng_fringe::run_fringe(&a),
         e => { eprintln!("unknown engine {}", e); std::process::exit(2); }
     }
 }
